@@ -25,6 +25,7 @@ type Reader struct {
 	FailErr error                   // error returned at FailAt
 	DelayAt map[int64]time.Duration // delay before serving the read that starts at this offset
 	OnRead  func(off int64, n int)  // called after every successful Read
+	Gate    func(call int64)        // called at the start of every Read (call index from 1); may block
 	// EagerEOF makes the Read that serves the last byte return (n, io.EOF) together, as
 	// io.Reader allows and HTTP bodies with a known length do.
 	EagerEOF bool
@@ -33,6 +34,7 @@ type Reader struct {
 	calls   atomic.Int64
 	eofCall atomic.Int64
 	inRead  atomic.Int32
+	inDelay atomic.Int32
 	mu      sync.Mutex
 }
 
@@ -46,11 +48,16 @@ func (r *Reader) Read(p []byte) (int, error) {
 	if r.FailAt > 0 && call >= r.FailAt {
 		return 0, r.FailErr
 	}
+	if r.Gate != nil {
+		r.Gate(call) // may block: the data is copied into p only afterwards
+	}
 	r.mu.Lock()
 	pos := r.pos
 	r.mu.Unlock()
 	if d, ok := r.DelayAt[pos]; ok && d > 0 {
+		r.inDelay.Add(1)
 		time.Sleep(d)
+		r.inDelay.Add(-1)
 	}
 	if pos >= int64(len(r.data)) {
 		r.eofCall.CompareAndSwap(0, call)
@@ -83,6 +90,10 @@ func (r *Reader) Bytes() int64 { return r.bytes.Load() }
 
 // InRead reports whether some goroutine is inside Read right now.
 func (r *Reader) InRead() bool { return r.inRead.Load() > 0 }
+
+// InDelay reports whether some goroutine is inside a delayed Read right now (it will write
+// into the caller's buffer when the delay is over).
+func (r *Reader) InDelay() bool { return r.inDelay.Load() > 0 }
 
 // EOFCall returns the index of the first Read call that returned io.EOF (0 = none yet).
 func (r *Reader) EOFCall() int64 { return r.eofCall.Load() }
